@@ -23,6 +23,8 @@ def log_syslog(message: str) -> None:
     # Come on python
     message_bytes = message.encode(errors="surrogateescape")
     message = message_bytes.decode("utf-8", errors="backslashreplace")
+    # ... and it refuses a NUL (ValueError), which a selector may well hold.
+    message = message.replace("\0", "\\x00")
     syslogfunc(priority, message)
 
 
